@@ -55,12 +55,15 @@ Fixpoint run_events (st : attribution) (evs : list event) : tout attribution :=
   end.
 
 (** for fname in filenames: for (name, det) in detectors: for run in data["runs"] *)
-(* order of the entry points as importlib.metadata yields them (entry_points.txt is sorted by name): codeql, semgrep *)
-Definition detector_order : list tool := [TCodeQL; TSemgrep].
-Definition file_events (f : N) (runs : list json) : list event :=
-  flat_map (fun t => map (fun run => (f, t, detect t run)) runs) detector_order.
-Definition detect_tools (files : list (N * option (list json))) : tout attribution :=
+(* [ord]: the order in which the detectors are iterated = the order of the `sarif_detectors` entry points as
+   importlib.metadata yields them; observed by the harness on every run, so it is a parameter here *)
+Definition file_events (ord : list tool) (f : N) (runs : list json) : list event :=
+  flat_map (fun t => map (fun run => (f, t, detect t run)) runs) ord.
+Definition detect_tools_ord (ord : list tool) (files : list (N * option (list json))) : tout attribution :=
   (* None = data["runs"] missing or not a list: uncaught *)
   if forallb (fun fr => match snd fr with Some _ => true | None => false end) files
-  then run_events [] (flat_map (fun fr => file_events (fst fr) (match snd fr with Some r => r | None => [] end)) files)
+  then run_events [] (flat_map (fun fr => file_events ord (fst fr) (match snd fr with Some r => r | None => [] end)) files)
   else TCrash.
+(* the order on the current installation (entry_points.txt is sorted by name): codeql, semgrep *)
+Definition detector_order : list tool := [TCodeQL; TSemgrep].
+Definition detect_tools := detect_tools_ord detector_order.
